@@ -279,3 +279,31 @@ def visits_all_statements(fn, visitor=None):
     return True, how
 
 
+
+
+def per_record(body, coll_pat, env=None):
+    """The code executed once for every element of the collection matching `coll_pat`: (element name, body node, how,
+    produced) for `for x in C { body }` and `C.iter().map|for_each|filter_map|flat_map(|x| body)`; `produced` tells
+    whether the value of the body is what is kept (`map`) rather than its effects (`for`, `for_each`)."""
+    cp = pattern(coll_pat)
+    out = []
+    for n in walk(body):
+        if n["k"] == "For":
+            it = strip(n["iter"])
+            r = it
+            while r["k"] == "MethodCall" and r["method"] in ("iter", "iter_mut", "into_iter", "cloned", "copied") and not r["args"]:
+                r = strip(r["recv"])
+            if match(cp, it, {}, env) or match(cp, r, {}, env):
+                names = [b["name"] for b in walk(n["pat"]) if b["k"] == "PIdent"]
+                if len(names) == 1:
+                    out.append((names[0], n["body"], "for-loop", False))
+        if n["k"] == "MethodCall" and n["method"] in ("map", "for_each", "filter_map", "flat_map") and n["args"] and n["args"][-1]["k"] == "Closure":
+            r = strip(n["recv"])
+            while r["k"] == "MethodCall" and r["method"] in ("iter", "iter_mut", "into_iter", "cloned", "copied") and not r["args"]:
+                r = strip(r["recv"])
+            if match(cp, r, {}, env):
+                cl = n["args"][-1]
+                names = [b["name"] for p in cl["inputs"] for b in walk(p) if b["k"] == "PIdent"]
+                if len(names) == 1:
+                    out.append((names[0], cl["body"], "iterator " + n["method"], n["method"] in ("map", "filter_map", "flat_map")))
+    return out
